@@ -353,6 +353,9 @@ class Interp:
         owner = self.field_owner(cls, fname)
         if owner is None:
             raise Unsupported(f"unknown field {cls}.{fname}")
+        for g in getattr(fr, "write_guards", None) or []:
+            if g.get(fname) is not None and owner not in g[fname]:
+                raise Unsupported(f"store to {owner}.{fname} inside a loop whose head havocked {fname} for {sorted(g[fname])} only")
         ty = self.field_ty(owner, fname)
         m = self.heap_map(owner, fname)
         self.heap[(owner, fname)] = z3.Store(m, obj.term, self.coerce(val, ty).term)
